@@ -7,7 +7,7 @@ ID = "C17"
 HARNESS = "C17_threads.cpp"
 EXPLANATION = "The same 4-body model with eight custom force elements (each flagged parallel / non-parallel and position-only / velocity dependent according to the instance's mix mask), a two-point spring, a damper and gravity is built with 1, 2, 4 and 16 force threads and realized twice (all caches invalid; then only speeds changed so that position-only elements come from the cache), with all coefficients, stations, coordinates and speeds symbolic. Simbody's own worker threads run against the thread-safe symbolic runtime; the solver proves that every rigid-body force, mobility force and udot equals the single-threaded one as a real function of all inputs (summation order may differ: real equality is the property's 'up to floating-point summation order')."
 BOUNDS = "thread counts 1,2,4,16; 12 quick / 64 thorough parallel/position-only mix masks; one free coordinate at a time + all coefficients and speeds free; the thread schedule that happens to run is the one checked"
-NOT_COVERED = "all thread interleavings and data-race freedom (the runtime observes values, not schedules); more than 16 threads"
+NOT_COVERED = "all thread interleavings and data-race freedom as such (the runtime observes values, not schedules: each instance additionally repeats the multi-threaded evaluation 36 times, in the symbolic and in the native run, and requires identical totals - this is how the data race fixed in /repo was seen); more than 16 threads"
 
 
 def instances(tier, seed):
@@ -34,4 +34,6 @@ def obligations(enc, inst, tr):
         for part in ("a_F", "a_f", "b_F", "b_f", "b_udot"):
             ns = [n for n in names if n.startswith(part)]
             obs.append(eqs(enc, "%d threads == 1 thread: %s" % (T, part), [(enc.out("T%d_%s" % (T, n)), enc.out("T1_" + n)) for n in ns]))
+    obs.append(Ob("repeated multi-threaded evaluations (12 x {2,4,16} threads) all reproduce the single-threaded totals",
+                  [Constraint(1, enc.out("race_dev_exceeds_1e9"), "no deviation")]))
     return obs
